@@ -198,6 +198,35 @@ func c13apply(kind string, c ap.CollectionInterface, op c13op) (res J) {
 	return J{"k": "unknown-op"}
 }
 
+// c13reload persists the container with one of the codecs and reads it back into a fresh container of the same kind
+func c13reload(kind string, c ap.CollectionInterface, codec string) (ap.CollectionInterface, J) {
+	var out ap.Item
+	err := safely(func() error {
+		var b []byte
+		var e error
+		if codec == "json" {
+			if b, e = ap.MarshalJSON(c); e != nil {
+				return e
+			}
+			out, e = ap.UnmarshalJSON(b)
+			return e
+		}
+		if b, e = ap.GobEncode(c); e != nil {
+			return e
+		}
+		out, e = ap.GobDecode(b)
+		return e
+	})
+	if err != nil {
+		return c, J{"k": "err", "msg": err.Error()}
+	}
+	nc, ok := out.(ap.CollectionInterface)
+	if !ok || reflect.TypeOf(out) != reflect.TypeOf(c) {
+		return c, J{"k": "err", "msg": fmt.Sprintf("reloaded as %T", out)}
+	}
+	return nc, J{"k": "ok"}
+}
+
 func c13emit(w *ndWriter, kind string, c ap.CollectionInterface, op c13op) {
 	res := c13apply(kind, c, op)
 	post := contentsOf(c)
@@ -310,6 +339,17 @@ func init() {
 					op = c13op{O: []string{"IRIs", "Normalize", "First"}[rng.Intn(3)]}
 				default:
 					op = c13op{O: "AppendMany", Xs: []int{x, 1 + rng.Intn(ids), 1 + rng.Intn(ids)}}
+				}
+				if (op.O == "Count" || op.O == "Contains") && kind != "ItemCollection" && kind != "IRIs" && rng.Intn(6) == 0 {
+					// now and then the container is persisted and read back before the history goes on
+					codec := []string{"json", "gob"}[rng.Intn(2)]
+					nc, res := c13reload(kind, c, codec)
+					c = nc
+					name := "SaveLoadJSON"
+					if codec == "gob" {
+						name = "SaveLoadGob"
+					}
+					w.Write(J{"ev": "op", "op": c13op{O: name}, "post": append([]int{}, contentsOf(c)...), "res": res})
 				}
 				c13emit(w, kind, c, op)
 			}
